@@ -190,7 +190,7 @@ func TestC01B(t *testing.T) {
 	p := &batchProp[c01bCase]{
 		ID:        "C01",
 		Rule:      "tier B: the same grammar generator rendered as .tm text (single-letter terminals, optional skipped space token, mid-rule actions and state markers on 1/4 of the grammars, 1 in 10 a grammar with >=16 goto pairs on one nonterminal so that the generated binary-search gotoState branch runs) x optimizeTables/defaultReduce/minimizeDFA, compiled by compiler.Compile, generated by gen.Generate, built (one scratch module per batch) and run: Parser.Parse<Input>(&lexer) must return nil iff the Earley oracle accepts, otherwise a SyntaxError whose Offset is the byte offset of the first non-viable token (len(src) at end of input).",
-		Quick:     64, Thorough: 1200, BatchSize: 64,
+		Quick:     128, Thorough: 2400, BatchSize: 64,
 		Gen:       c01bGen,
 		Unit:      c01bUnit,
 		Check:     c01bCheck,
